@@ -5,32 +5,32 @@ From Coq Require Import List NArith Arith Bool Permutation.
 From RPCX Require Import Server.Dispatch Server.DispatchProofs.
 Import ListNotations.
 
-Theorem C04_two_way_exactly_one_stamped : forall find codec_ok decodable handler q,
+Theorem C04_two_way_exactly_one_stamped : forall find codec_ok decodable handler hmeta q,
   q_hb q = false -> q_oneway q = false ->
-  exists r, fst (process find codec_ok decodable handler q) = [r] /\ stamped q r.
+  exists r, fst (process find codec_ok decodable handler hmeta q) = [r] /\ stamped q r.
 Proof. exact two_way_exactly_one. Qed.
 
-Theorem C04_one_way_no_response : forall find codec_ok decodable handler q,
-  q_hb q = false -> q_oneway q = true -> fst (process find codec_ok decodable handler q) = [].
+Theorem C04_one_way_no_response : forall find codec_ok decodable handler hmeta q,
+  q_hb q = false -> q_oneway q = true -> fst (process find codec_ok decodable handler hmeta q) = [].
 Proof. exact one_way_no_response. Qed.
 
-Theorem C04_heartbeat_echo : forall find codec_ok decodable handler q, q_hb q = true ->
-  process find codec_ok decodable handler q = ([base q SNormal None (q_args q)], []).
+Theorem C04_heartbeat_echo : forall find codec_ok decodable handler hmeta q, q_hb q = true ->
+  process find codec_ok decodable handler hmeta q = ([base q SNormal None (q_args q)], []).
 Proof. exact heartbeat_echo. Qed.
 
 (* any interleaving of reads and completions on any number of connections: a frame written on a
    connection answers a request that was read on that very connection *)
-Theorem C04_frames_answer_own_connection : forall find codec_ok decodable handler es c f,
-  In (c, f) (written (crun find codec_ok decodable handler cinit es)) ->
-  exists rid q, In (CRead c rid q) es /\ In f (fst (process find codec_ok decodable handler q)).
+Theorem C04_frames_answer_own_connection : forall find codec_ok decodable handler hmeta es c f,
+  In (c, f) (written (crun find codec_ok decodable handler hmeta cinit es)) ->
+  exists rid q, In (CRead c rid q) es /\ In f (fst (process find codec_ok decodable handler hmeta q)).
 Proof. exact frames_answer_own_connection. Qed.
 
 (* every completion order: what was written is, in completion order, each request's own frames on
    its own connection - each exactly once *)
-Theorem C04_completed_requests_written_once : forall find codec_ok decodable handler l order,
+Theorem C04_completed_requests_written_once : forall find codec_ok decodable handler hmeta l order,
   NoDup (map (fun x => fst (fst x)) l) -> Permutation order l ->
-  written (crun find codec_ok decodable handler cinit (reads l ++ map (fun x => CDone (fst (fst x))) order))
-  = flat_map (frames_of find codec_ok decodable handler) order.
+  written (crun find codec_ok decodable handler hmeta cinit (reads l ++ map (fun x => CDone (fst (fst x))) order))
+  = flat_map (frames_of find codec_ok decodable handler hmeta) order.
 Proof. exact completed_requests_written_once. Qed.
 
 Example C04_nonvacuous :
@@ -38,7 +38,7 @@ Example C04_nonvacuous :
   let handler := fun p m a => HReply (a * 10) in
   let q1 := mkReq 7 1 1 1 false false 3 in let q2 := mkReq 7 2 1 1 false false 4 in
   map (fun cf => (fst cf, r_seq (snd cf), r_payload (snd cf), r_err (snd cf)))
-      (written (crun find (fun _ => true) (fun _ _ => true) handler cinit [CRead 0 0 q1; CRead 1 1 q2; CDone 1; CDone 0]))
+      (written (crun find (fun _ => true) (fun _ _ => true) handler (fun _ _ _ => [(5, 6)]) cinit [CRead 0 0 q1; CRead 1 1 q2; CDone 1; CDone 0]))
   = [(1, 7%N, 0, Some (XNoService 2)); (0, 7%N, 30, None)].
 Proof. reflexivity. Qed.
 
